@@ -256,7 +256,10 @@ def so3Near (R : Rng α) (near : OmplModel.St α) (d : α) (p : Pos) : OmplModel
   if Num.ofDec 25 2 * Num.pi ≤ d then so3Uniform R p
   else
     let c := R.u p.ui
-    let q := axisAngle (R.g p.gi) (R.g (p.gi + 1)) (R.g (p.gi + 2)) (Num.ofNat 2 * c * d)
+    -- `computeAxisAngle(q, gaussian01(), gaussian01(), gaussian01(), …)`: the order in which the three argument
+    -- expressions are evaluated is unspecified in C++; g++ evaluates them right to left (seen in the raw-draw
+    -- lock-step), so `ax` is the THIRD draw.  Irrelevant for the bounds theorems (they hold for all draws).
+    let q := axisAngle (R.g (p.gi + 2)) (R.g (p.gi + 1)) (R.g p.gi) (Num.ofNat 2 * c * d)
     (quatMul near q, { ui := p.ui + 1, gi := p.gi + 3 })
 
 /-- `root_three` -/
@@ -324,6 +327,12 @@ def sampleUniform (R : Rng α) : Space α → Pos → OmplModel.St α × Pos
 /-- SO(2)-style component of the special samplers: `uniformReal(c - d, c + d)` (enforced later) -/
 def rawNear (R : Rng α) (c d : α) (k : Nat) : α := uniformReal (c - d) (c + d) (R.u k)
 
+/-- the decision CompoundStateSampler::sampleUniformNear takes for one component:
+`weightImportance_[i] > eps ? sampleUniformNear(…, distance * weightImportance_[i]) : sampleUniform(…)`
+(`some d'` = near with radius `d'`, `none` = uniform) -/
+def nearBranch (ws w d : α) : Option α :=
+  if eps < importance ws w then some (d * importance ws w) else none
+
 /-- `sampleUniformNear` -/
 def sampleNear (R : Rng α) : Option α → Space α → OmplModel.St α → α → Pos → OmplModel.St α × Pos
   | _, .rv lo hi, c, d, p => (.rv (rvNear R d lo hi (St.vals c) p.ui), { p with ui := p.ui + lo.length })
@@ -338,8 +347,9 @@ def sampleNear (R : Rng α) : Option α → Space α → OmplModel.St α → α 
   | _, .cnil, _, _, p => (.cnil, p)
   | ctx, .ccons w h t, c, d, p =>
     let ws := ctx.getD (weightSum (.ccons w h t) (Num.ofNat 0))
-    let imp := importance ws w
-    let r1 := if eps < imp then sampleNear R none h (St.hd c) (d * imp) p else sampleUniform R h p
+    let r1 := match nearBranch ws w d with
+      | some d' => sampleNear R none h (St.hd c) d' p
+      | none => sampleUniform R h p
     let r2 := sampleNear R (some ws) t (St.tl c) d r1.2
     (.ccons r1.1 r2.1, r2.2)
   | _, .torus _ _, c, d, p =>
@@ -398,6 +408,216 @@ def sampleGauss (R : Rng α) : Option α → Space α → OmplModel.St α → α
           (enfRv [Num.ofNat 0] [Num.pi] (.rv [gaussian ((St.vals (St.hd (St.tl c))).headD (Num.ofNat 0)) sd (R.g (p.gi + 1))])),
       { p with gi := p.gi + 2 })
   | _, .wrap sp, c, sd, p => sampleGauss R none sp c sd p
+
+/-! ### SubspaceStateSampler (StateSampler.cpp) and CompoundStateSpace::allocSubspaceStateSampler
+
+The sampled subspace is addressed by a component path through nested compounds (`[k]` = the k-th component,
+`[k, j]` = the j-th component of that, …).  What OMPL does by substate NAMES (`getCommonSubspaces` +
+`copyStateData`; the general mechanism is C09's) reduces, for a subspace that is a (nested) component of the
+space, to "the substate at that path": the common names are the subspace and its descendants, `StateSpaceCovers`
+removes the descendants, and the one remaining name is copied as a whole.  Paths through `wrap` nodes and into
+the special spaces are not modelled (a wrapper component has no common names with its parent: OMPL warns
+"Sampling will have no effect"; observed and counted by the check). -/
+
+/-- k-th component of a compound (`cnil` if there is none) -/
+def comp : Space α → Nat → Space α
+  | .ccons _ h _, 0 => h
+  | .ccons _ _ t, k + 1 => comp t k
+  | _, _ => .cnil
+
+def compWeight : Space α → Nat → α
+  | .ccons w _ _, 0 => w
+  | .ccons _ _ t, k + 1 => compWeight t k
+  | _, _ => Num.ofNat 0
+
+def hasComp : Space α → Nat → Bool
+  | .ccons _ _ _, 0 => true
+  | .ccons _ _ t, k + 1 => hasComp t k
+  | _, _ => false
+
+def subAt : Space α → List Nat → Space α
+  | sp, [] => sp
+  | sp, k :: ks => subAt (comp sp k) ks
+
+def validPath : Space α → List Nat → Bool
+  | _, [] => true
+  | sp, k :: ks => hasComp sp k && validPath (comp sp k) ks
+
+def stGet : OmplModel.St α → Nat → OmplModel.St α
+  | s, 0 => St.hd s
+  | s, k + 1 => stGet (St.tl s) k
+
+def stSet : OmplModel.St α → Nat → OmplModel.St α → OmplModel.St α
+  | s, 0, w => .ccons w (St.tl s)
+  | s, k + 1, w => .ccons (St.hd s) (stSet (St.tl s) k w)
+
+/-- `copyStateData(subspace_, work, space_, full)`: read the substate at the path -/
+def getAt : OmplModel.St α → List Nat → OmplModel.St α
+  | s, [] => s
+  | s, k :: ks => getAt (stGet s k) ks
+
+/-- `copyStateData(space_, state, subspace_, work_, subspaces_)`: overwrite the substate at the path, nothing else -/
+def setAt : OmplModel.St α → List Nat → OmplModel.St α → OmplModel.St α
+  | _, [], w => w
+  | s, k :: ks, w => stSet s k (setAt (stGet s k) ks w)
+
+/-- the `weight` a SubspaceStateSampler is built with: CompoundStateSpace::allocSubspaceStateSampler gives a DIRECT
+component `weightSum_ < eps ? 1.0 : weight/weightSum_` (fix c8007d40e, finding F78); any other subspace goes through
+StateSpace::allocSubspaceStateSampler with weight 1.0 -/
+def subWeight (sp : Space α) : List Nat → α
+  | [k] => importance (weightSum sp (Num.ofNat 0)) (compWeight sp k)
+  | _ => Num.ofNat 1
+
+/-- SubspaceStateSampler::sampleUniform: `subspaceSampler_->sampleUniform(work_); copy work_ back` -/
+def subspaceUniform (R : Rng α) (sp : Space α) (path : List Nat) (st : OmplModel.St α) (p : Pos) :
+    OmplModel.St α × Pos :=
+  let r := sampleUniform R (subAt sp path) p
+  (setAt st path r.1, r.2)
+
+/-- SubspaceStateSampler::sampleUniformNear: `work2_ := near's substate; sampleUniformNear(work_, work2_,
+distance * weight_); copy work_ back` -/
+def subspaceNear (R : Rng α) (sp : Space α) (path : List Nat) (st near : OmplModel.St α) (d : α) (p : Pos) :
+    OmplModel.St α × Pos :=
+  let r := sampleNear R none (subAt sp path) (getAt near path) (d * subWeight sp path) p
+  (setAt st path r.1, r.2)
+
+/-- SubspaceStateSampler::sampleGaussian -/
+def subspaceGauss (R : Rng α) (sp : Space α) (path : List Nat) (st mean : OmplModel.St α) (sd : α) (p : Pos) :
+    OmplModel.St α × Pos :=
+  let r := sampleGauss R none (subAt sp path) (getAt mean path) (sd * subWeight sp path) p
+  (setAt st path r.1, r.2)
+
+/-! the same three calls as a little program over named state slots, to speak about ALIASING (the functional
+definitions above cannot): `state`/`near` are the caller's, `work`/`work2` the sampler's scratch states; the inner
+sampler is told whether its output slot is its input slot (finding F77 was an inner sampler that misbehaves then) -/
+inductive Slot where
+  | state | near | work | work2
+deriving DecidableEq, Repr
+
+inductive Instr where
+  | toSub (dst src : Slot)      -- copyStateData(subspace_, dst, space_, src)
+  | inner (out inp : Slot)      -- subspaceSampler_->sampleUniformNear / sampleGaussian (out, inp, …)
+  | back (dst src : Slot)       -- copyStateData(space_, dst, subspace_, src, subspaces_)
+
+def Mem (α : Type) := Slot → OmplModel.St α
+
+def Mem.set (m : Mem α) (k : Slot) (v : OmplModel.St α) : Mem α := fun j => if j = k then v else m j
+
+def exec (inner : Bool → OmplModel.St α → OmplModel.St α) (path : List Nat) (m : Mem α) : Instr → Mem α
+  | .toSub d s => m.set d (getAt (m s) path)
+  | .inner o i => m.set o (inner (decide (o = i)) (m i))
+  | .back d s => m.set d (setAt (m d) path (m s))
+
+def run (inner : Bool → OmplModel.St α → OmplModel.St α) (path : List Nat) (m : Mem α) (prog : List Instr) : Mem α :=
+  prog.foldl (exec inner path) m
+
+/-- sampleUniformNear / sampleGaussian of SubspaceStateSampler as coded; `nearSlot` is where the caller's `near` lives
+(`Slot.state` when the caller passes `state == near`) -/
+def subNearProg (nearSlot : Slot) : List Instr :=
+  [.toSub .work2 nearSlot, .inner .work .work2, .back .state .work]
+
+/-- seeded change s1 (not the code): one scratch state, the inner sampler called in place -/
+def subNearProgInPlace (nearSlot : Slot) : List Instr :=
+  [.toSub .work nearSlot, .inner .work .work, .back .state .work]
+
+/-! ### rejection loops of the Torus and Klein-bottle uniform samplers -/
+
+/-- integer powers as `std::pow(x, n)` computes them (the Klein-bottle sampler uses `std::pow`) -/
+class NumPow (α : Type) where
+  powN : α → Nat → α
+
+instance : NumPow Float := ⟨fun x n => Float.pow x (Float.ofNat n)⟩
+
+/-- outcome of `while (!acceptedSampleFound)` within `fuel` iterations -/
+inductive RejRes where
+  | found (i : Nat)      -- accepted at iteration i (the first accepted one)
+  | threw (i : Nat)      -- iteration i threw (Klein bottle: `s > gMax_`)
+  | exhausted            -- no decision within the fuel (the code has no bound; acceptance has positive probability)
+deriving DecidableEq, Repr
+
+/-- `step i = some b`: iteration i accepts (b) or rejects; `none`: it throws -/
+def rejFirst (step : Nat → Option Bool) : Nat → Nat → RejRes
+  | 0, _ => .exhausted
+  | f + 1, i =>
+    match step i with
+    | some true => .found i
+    | some false => rejFirst step f (i + 1)
+    | none => .threw i
+
+/-- Torus: `vprime = (R + r*cos(v)) / (R + r); mu = uniformReal(0, 1); if (mu <= vprime) accept`;
+iteration draws sit at stream positions k (u), k+1 (v), k+2 (mu) -/
+def torusAccept (R : Rng α) (Rr r : α) (k : Nat) : Bool :=
+  let v := uniformReal (-Num.pi) Num.pi (R.u (k + 1))
+  let vprime := (Rr + r * Num.cos v) / (Rr + r)
+  let mu := uniformReal (Num.ofNat 0) (Num.ofNat 1) (R.u (k + 2))
+  decide (mu ≤ vprime)
+
+/-- `gMax_ = 4.1455` -/
+def kleinGMax : α := Num.ofDec 41455 4
+
+/-- the gradient norm of KleinBottleStateSampler::sampleUniform, expression by expression -/
+def kleinNorm [NumPow α] (u v : α) : α :=
+  let n (k : Nat) : α := Num.ofNat k
+  let dec (m e : Nat) : α := Num.ofDec m e
+  let cu := Num.cos u
+  let cv := Num.cos v
+  let su := Num.sin u
+  let sv := Num.sin v
+  let cu3 := NumPow.powN cu 3
+  let cu5 := NumPow.powN cu 5
+  let cu6 := NumPow.powN cu 6
+  let cu7 := NumPow.powN cu 7
+  let cu8 := NumPow.powN cu 8
+  let su2 := NumPow.powN su 2
+  let su3 := NumPow.powN su 3
+  let su4 := NumPow.powN su 4
+  let su5 := NumPow.powN su 5
+  let su6 := NumPow.powN su 6
+  let su7 := NumPow.powN su 7
+  let su8 := NumPow.powN su 8
+  let third : α := n 1 / n 3
+  let twoThirds : α := n 2 / n 3
+  let s2u := Num.sin (n 2 * u)
+  let c2u := Num.cos (n 2 * u)
+  let aprime := n 64 * su8 - n 128 * su6 + n 60 * su4 + dec 4 1 * su * cv - (n 1 / n 6) * cu * cv -
+    dec 5 1 * Num.cos (n 3 * u) * cv
+  let a := -aprime * cv + twoThirds * sv * sv * cu * c2u
+  let bprime := (n 26 + twoThirds) * su7 * cv - n 55 * su5 * cv - (n 37 + third) * su3 * cu6 * cv + n 28 * su3 * cv +
+    (n 10 + twoThirds) * su * cu8 * cv - (n 10 + twoThirds) * su * cu6 * cv - n 4 * s2u +
+    dec 224 1 * cu7 * cv - dec 352 1 * cu5 * cv + dec 122 1 * cu3 * cv + dec 6 1 * cu * cv
+  let cprime := (n 5 + third) * su5 * cu + dec 32 1 * su4 - (n 10 + twoThirds) * su3 * cu - dec 64 1 * su2 +
+    dec 25 1 * s2u + n 3
+  let b := (third * s2u + dec 4 1) * bprime * cu - cprime * aprime * su3
+  let c := (n 5 / n 6) * s2u + n 1
+  let d := -(third * s2u + dec 4 1) * bprime * cv + twoThirds * cprime * su3 * sv * sv * c2u
+  Num.sqrt (a * a * (dec 16 2 * c * c) + b * b * sv * sv + d * d)
+
+/-- one Klein-bottle iteration: `if (s > gMax_) throw; s = s / gMax_; mu = uniformReal(0,1); if (mu <= s) accept` -/
+def kleinStep [NumPow α] (R : Rng α) (k : Nat) : Option Bool :=
+  let u := uniformReal (Num.ofNat 0) Num.pi (R.u k)
+  let v := uniformReal (-Num.pi) Num.pi (R.u (k + 1))
+  let s := kleinNorm u v
+  if kleinGMax < s then none
+  else
+    let mu := uniformReal (Num.ofNat 0) (Num.ofNat 1) (R.u (k + 2))
+    some (decide (mu ≤ s / kleinGMax))
+
+/-- TorusStateSampler::sampleUniform with its rejection loop: the state of the first accepted iteration (the
+`sampleUniform` clause of `torus` evaluated at that iteration's stream position) and the position after its `mu` -/
+def torusUniformRej (R : Rng α) (Rr r : α) (fuel : Nat) (p : Pos) : RejRes × Option (OmplModel.St α × Pos) :=
+  match rejFirst (fun i => some (torusAccept R Rr r (p.ui + 3 * i))) fuel 0 with
+  | .found j =>
+    (.found j, some ((sampleUniform R (.torus Rr r) { p with ui := p.ui + 3 * j }).1, { p with ui := p.ui + 3 * j + 3 }))
+  | .threw j => (.threw j, none)
+  | .exhausted => (.exhausted, none)
+
+/-- KleinBottleStateSampler::sampleUniform with its rejection loop -/
+def kleinUniformRej [NumPow α] (R : Rng α) (fuel : Nat) (p : Pos) : RejRes × Option (OmplModel.St α × Pos) :=
+  match rejFirst (fun i => kleinStep R (p.ui + 3 * i)) fuel 0 with
+  | .found j =>
+    (.found j, some ((sampleUniform R .klein { p with ui := p.ui + 3 * j }).1, { p with ui := p.ui + 3 * j + 3 }))
+  | .threw j => (.threw j, none)
+  | .exhausted => (.exhausted, none)
 
 /-! ### valid-state samplers over an oracle (no arithmetic on states) -/
 section Valid
